@@ -10,6 +10,9 @@ the running bit with `Rs.shl 64` (bits shifted out are dropped, as in Rust); the
 `Nat → Nat`.  Bridge: the vector is `tab 256 f = (List.range 256).map f` for the model's `f`; symbols are bytes (`< 256`).
 No bound on the pattern length is needed: `masks` itself never panics (the `m ≤ 64` assertion is in `ShiftAnd::new`).
 -/
+-- the simp sets name every fact a harmless rewrite of the Rust text may need; on the pinned text some are unused
+set_option linter.unusedSimpArgs false
+
 namespace RbV.Thm.GenSrcShiftAndMasks
 open RbV RbV.Rs RbV.Gen.SrcShiftAndMasks RbV.Thm.GenSrc
 
